@@ -22,7 +22,7 @@ import (
 // Op is one step of a history. Handle operands are indices into the list of live handles,
 // taken modulo its length when the step runs.
 type Op struct {
-	Kind string     `json:"kind"` // get | reweight | add | compromise | json | file
+	Kind string     `json:"kind"` // get | reweight | add | compromise | json | file | reread | stray
 	ID   int        `json:"id,omitempty"`
 	H1   int        `json:"h1,omitempty"`
 	H2   int        `json:"h2,omitempty"`
@@ -346,6 +346,16 @@ func check(c Case) error {
 			}
 		}
 		switch kind {
+		case "stray":
+			// a table number NCBI does not define (a gap in the numbering, a retired number, 0, a negative one): whatever
+			// the library hands out for it is re-weighted; nothing of that may show in any table that is defined
+			func() {
+				defer func() { _ = recover() }()
+				_ = codon.GetCodonTable(op.ID).OptimizeTable(op.Seq.String())
+			}()
+			for _, id := range tableIDs { // from here on every defined table is looked at after every step
+				usedIDs[id] = true
+			}
 		case "get":
 			g, ok := ref.GeneticCodeByID(op.ID)
 			if !ok {
@@ -588,9 +598,12 @@ func genOps(t *rapid.T) []Op {
 	pool := rapid.SliceOfNDistinct(rapid.SampledFrom(tableIDs), 1, 3, func(i int) int { return i }).Draw(t, "id_pool")
 	ops := make([]Op, 0, n)
 	for i := 0; i < n; i++ {
-		kind := rapid.SampledFrom([]string{"get", "get", "reweight", "reweight", "reweight", "add", "compromise", "json", "file", "reread"}).Draw(t, "op")
+		kind := rapid.SampledFrom([]string{"get", "get", "reweight", "reweight", "reweight", "add", "compromise", "json", "file", "reread", "stray"}).Draw(t, "op")
 		op := Op{Kind: kind}
 		switch kind {
+		case "stray":
+			op.ID = rapid.SampledFrom([]int{0, 7, 8, 17, 18, 19, 20, 32, 34, 35, -1, 100, 1 << 20}).Draw(t, "undefined_id")
+			op.Seq = vk.SeqSpec{Lit: everyCodonOnce + genSeq(t, rapid.SampledFrom(pool).Draw(t, "gene_of")).String()}
 		case "get":
 			op.ID = rapid.SampledFrom(pool).Draw(t, "id")
 		case "reweight":
